@@ -44,6 +44,11 @@ type c01Case struct {
 // c01Held is the previous body evaluation of this worker (see heldCodec).
 var c01Held *heldCodec
 
+// c01Used: per layout, one long-lived destination that every evaluation decodes into after the previous one did, and the
+// message it held before.
+var c01Used = map[string]tq.EncoderDecoder{}
+var c01UsedMsg = map[string]*ref.Msg{}
+
 func c01Run(c *Ctx) {
 	job := 0
 	// bodies, plane (a): enums x 3 length profiles
@@ -213,6 +218,25 @@ func c01Body(c *Ctx, s layoutSpec, m *ref.Msg) {
 	if diff := sameMsg(m, fromImpl(d)); diff != "" {
 		fail("decode", "decoded fields differ: "+diff)
 	}
+	// decoding replaces whatever the destination held: the same bytes decoded into the value the previous evaluation of
+	// this layout decoded into yield the same fields
+	if used := c01Used[s.L.Name]; used != nil {
+		if p := safely(func() { err = used.UnmarshalBinary(want) }); p != "" {
+			fail("decode-into-used", "panic "+p)
+			return
+		}
+		if err != nil {
+			fail("decode-into-used", "RFC-laid-out bytes refused when the destination had been decoded into before: "+err.Error())
+		} else if diff := sameMsg(m, fromImpl(used)); diff != "" {
+			pj, j := msgToJSON(s.L, c01UsedMsg[s.L.Name]), msgToJSON(s.L, m)
+			c.R.Violate(s.L.Name+"/decode-into-used/"+firstWord(diff), fmt.Sprintf("%s decoded into a value that had held %s yields fields the bytes do not carry: %s; value %s", s.L.Name, c01UsedMsg[s.L.Name].String(), diff, m.String()),
+				c01Case{Kind: "reuse", Msg: &pj, Then: &j})
+		}
+	} else {
+		c01Used[s.L.Name] = emptyImpl(s.L)
+		c01Used[s.L.Name].UnmarshalBinary(want)
+	}
+	c01UsedMsg[s.L.Name] = m
 	// the previous evaluation's results must have survived this one
 	if what := c01Held.changed(); what != "" {
 		pj, j := msgToJSON(c01Held.L, c01Held.M), msgToJSON(s.L, m)
@@ -313,6 +337,12 @@ func c01Replay(c *Ctx, raw json.RawMessage) {
 	switch cs.Kind {
 	case "body":
 		l, m := msgFromJSON(*cs.Msg)
+		c01Body(c, specByName(l.Name), m)
+	case "reuse":
+		l, m := msgFromJSON(*cs.Msg)
+		delete(c01Used, l.Name)
+		c01Body(c, specByName(l.Name), m)
+		l, m = msgFromJSON(*cs.Then)
 		c01Body(c, specByName(l.Name), m)
 	case "retain":
 		c01Held = nil
